@@ -374,6 +374,27 @@ def id_snapshot(mods):
     return snap
 
 
+def order_snapshot(mods):
+    """the order of the registries: what parameters() / state_dict() / an optimizer see"""
+    return [(list(m._parameters), list(m._buffers)) for m in mods]
+
+
+def keeps_param_slots(graph, world, tree, m, seen=None):
+    """does every leaf aimed at a `_parameters` slot carry a Parameter? (a plain tensor put into a parameter slot moves the
+    name to `__dict__`; the Parameter coming back is appended: the one case in which the order legitimately changes)"""
+    md = graph["mods"][m]
+    pslots = {nm for nm, t in md["params"] if t is not None}
+    kids = {nm: k for nm, k in md["kids"]}
+    for nm, v in tree:
+        if v[0] == "leaf":
+            if nm in pslots and world.kinds[v[1]] not in ("p", "pl"):
+                return False
+        elif kids.get(nm) is not None:
+            if not keeps_param_slots(graph, world, v[1], kids[nm]):
+                return False
+    return True
+
+
 def diff_snap(a, b):
     out = []
     for part in ("params", "buffers"):
